@@ -89,10 +89,11 @@ func (r *zstdByteStreamChunkReader) Read() ([]byte, error) {
 	buf := make([]byte, r.readChunkSize)
 	n, err := r.decoder.Read(buf)
 	if n > 0 {
-		if err != nil && err != io.EOF {
-			err = nil
-		}
-		return buf[:n], err
+		// ChunkReaders must not return data together with an
+		// error, io.EOF included: consumers discard chunks that
+		// are accompanied by one. The decoder reports the same
+		// error again on the next call.
+		return buf[:n], nil
 	}
 	return nil, err
 }
